@@ -443,7 +443,8 @@ def bitexact(v, lvl, over, acc, want):
             del kw['error']
         if kw.get('micro') is False and not T.is_micro(v):
             continue
-        evaluate(acc, case, content, parts, kw, single=True, decode=(T.is_micro(v) or v <= 12), exp_bytes=exp, want=want)
+        # (the library boosts single-segment content only, and the property states the boosted level for single-part content only)
+        evaluate(acc, case, content, parts, kw, single=(len(parts) == 1), decode=(T.is_micro(v) or v <= 12), exp_bytes=exp, want=want)
 
 
 def crosstalk(direction, acc, want):
